@@ -80,17 +80,24 @@ def interpreter(cfg, sysver=None, name=None, nodot=_MISSING, ext=_MISSING, syste
             sufs[:] = saved
 
 
+def feed(lst, salt):
+    """the parameters are documented as Iterable[str]: the kind handed over (list, one-shot iterator, generator, tuple) is a function
+    of the case text, the answer must not depend on it"""
+    sel = (sum(len(x) for x in lst) + len(lst) + salt) % 4
+    return [lst, iter(lst), (x for x in lst), tuple(lst)][sel]
+
+
 def observe(cmd, args):
     if cmd == "t.cpython":
         v, abis, ps, cfg = args
         with interpreter(cfg):
-            return show(list(tags.cpython_tags(pv(v), None if abis == "?" else plist(abis), plist(ps))))
+            return show(list(tags.cpython_tags(pv(v), None if abis == "?" else feed(plist(abis), 0), feed(plist(ps), 1) if plist(ps) else plist(ps))))
     if cmd == "t.compat":
         v, interp, ps = args
-        return show(tags.compatible_tags(pv(v), interp or None, plist(ps)))
+        return show(tags.compatible_tags(pv(v), interp or None, feed(plist(ps), 1) if plist(ps) else plist(ps)))
     if cmd == "t.generic":
         interp, abis, ps = args
-        return show(tags.generic_tags(interp, plist(abis), plist(ps)))
+        return show(tags.generic_tags(interp, feed(plist(abis), 0), feed(plist(ps), 1) if plist(ps) else plist(ps)))
     if cmd == "t.gabi":
         ext, cfg, sysver = args
         with interpreter(cfg, sysver=pv(sysver), ext=opts(ext)):
